@@ -31,11 +31,11 @@ def build_cases(chk):
     for j in range(4 if chk.quick else 16):
         many, late = [False] * rng.choice([6, 7, 8]), [rng.random() < 0.5]
         c = {"id": len(cases), "seed": rng.randint(1, 10 ** 9), "intervalMs": 15, "loss": 0, "dup": 0, "delay": rng.choice([10, 25]),
-             "writers": 2, "writes": 90, "callers": 1, "craft": "", "suite": ""}
+             "writers": 2, "writes": 300, "callers": 1, "craft": "", "suite": ""}
         if j % 2 == 0:
-            c.update(updC=many, updS=late, lateS=rng.choice([120, 180]))
+            c.update(updC=many, updS=late, lateS=len(many) - 1)
         else:
-            c.update(updS=many, updC=late, lateC=rng.choice([120, 180]))
+            c.update(updS=many, updC=late, lateC=len(many) - 1)
         cases.append(c)
     return cases
 
